@@ -250,7 +250,9 @@ def check(run):
                           key=key_of("C08-R4", spec))
     # ------------------------------------------------------------------ R5 glTF: node -> mesh indices are positions in tree["meshes"]
     run.rule("R5", "glTF: the node->mesh index handed to the scene graph counts entries actually appended to tree['meshes'] (skipped geometry does not shift later indices)")
-    cg = ix.func("trimesh.exchange.gltf:_create_gltf_structure")
+    cg = ix.func_by_role("trimesh.exchange.gltf:_create_gltf_structure",
+                         lambda f_: any(isinstance(c_, ast.Call) and isinstance(c_.func, ast.Attribute) and c_.func.attr == "to_gltf" for c_ in ast.walk(f_.node)) and not f_.nested,
+                         "the function that asks the scene graph for its glTF nodes")
     call = None
     for c in ast.walk(cg.node):
         if isinstance(c, ast.Call) and isinstance(c.func, ast.Attribute) and c.func.attr == "to_gltf":
